@@ -622,6 +622,23 @@ fn random_datagram() -> impl Strategy<Value = Vec<u8>> {
         3 => prop::collection::vec(any::<u8>(), 40..600),
         1 => prop::collection::vec(any::<u8>(), 600..7000),
         1 => (any::<u8>(), 60000usize..65508).prop_map(|(b, n)| vec![b; n]),
+        // a short head of extreme bytes (count / length positions) followed by one short token repeated up to the largest datagram:
+        // the shape that makes a table / list parser iterate as often as a count field says
+        2 => (
+            prop::collection::vec(prop::sample::select(vec![0u8, 0, 1, 2, 0x7F, 0x80, 0xFF, 0xFF, b'\\', b'\n']), 0 .. 8),
+            prop_oneof![
+                prop::sample::select(vec![b"a\0".to_vec(), b"\0".to_vec(), b"\\a".to_vec(), b"\\a\\b".to_vec(), b"a\0\0".to_vec(), b"\x01a".to_vec(), b"1 1 \"a\"\n".to_vec(), b"\xFF".to_vec(), b"a;".to_vec(), b"\0\0\0\x01".to_vec()]),
+                prop::collection::vec(any::<u8>(), 1 .. 5),
+            ],
+            prop_oneof![Just(1024usize), Just(1400), Just(6144), Just(65_507), 100usize .. 65_508],
+        )
+            .prop_map(|(mut head, token, n)| {
+                while head.len() < n {
+                    head.extend_from_slice(&token);
+                }
+                head.truncate(n);
+                head
+            }),
     ]
 }
 
@@ -1324,6 +1341,40 @@ impl Prop for C13 {
                 source: format!("decompression:{name}"),
             });
         }
+        // table amplification: a GameSpy 2 reply whose row count says 255 and whose column heads fill the datagram, without any row data
+        for size in [1024usize, 1400, 6144, 65_507] {
+            for (name, token, same) in [("same-names", &b"a\0"[..], true), ("distinct-names", &b""[..], false)] {
+                for table in 0 .. 2 {
+                    let mut d: Vec<u8> = vec![0, 0, 0, 0, 1];
+                    if table == 1 {
+                        // well-formed variables and an empty players table in front of the teams table
+                        d.extend_from_slice(b"hostname\0x\0mapname\0y\0password\x000\0maxplayers\x001\0\0\0");
+                        d.extend_from_slice(&[0, 0]);
+                    } else {
+                        d.extend_from_slice(&[0, 0]);
+                    }
+                    d.extend_from_slice(&[0, 0xFF]);
+                    let mut k = 0u32;
+                    while d.len() + 8 < size {
+                        if same {
+                            d.extend_from_slice(token);
+                        } else {
+                            d.extend_from_slice(format!("{k:x}").as_bytes());
+                            d.push(0);
+                            k += 1;
+                        }
+                    }
+                    out.push(HCase {
+                        entry: if table == 0 { Entry::Gs2 } else { Entry::Generic { game: "hce".into(), extra: None } },
+                        retries: 0,
+                        udp_at_open: vec![],
+                        udp: vec![vec![hex(&d)]],
+                        tcp: vec![],
+                        source: format!("amplification:gs2-table{table}-{name}-{size}"),
+                    });
+                }
+            }
+        }
         Box::new(out.into_iter())
     }
 
@@ -1338,7 +1389,7 @@ pub fn judge_c13(case: &HCase, run: &Run<()>, site: Option<String>) -> Outcome {
     {
         let mut o = Outcome::new();
         o.label(format!("entry={}", case.entry.label()));
-        if case.source.starts_with("decompression") {
+        if case.source.starts_with("decompression") || case.source.starts_with("amplification") {
             o.label(case.source.clone());
         }
         let a = run.alloc;
